@@ -11,13 +11,6 @@ import PS.Proofs.TtcfgTotal
 namespace PS.T
 open PS PS.G
 
-/-- all `(arguments taken, slot type)` with `t.endsWith slot = some arguments` -/
-def suffixesRec : Ty → List Ty → List (List Ty × Ty)
-  | .arrow a b, acc => (acc, .arrow a b) :: suffixesRec b (acc ++ [a])
-  | t, acc => [(acc, t)]
-
-def suffixes (t : Ty) : List (List Ty × Ty) := suffixesRec t []
-
 theorem mem_suffixesRec : ∀ (t other : Ty) (acc tys : List Ty), Ty.endsWithRec t other acc = some tys →
     (tys, other) ∈ suffixesRec t acc
   | .arrow x y, other, acc, tys, h => by
@@ -42,13 +35,6 @@ theorem mem_suffixesRec : ∀ (t other : Ty) (acc tys : List Ty), Ty.endsWithRec
     by_cases he : Ty.unknown = other
     · simp only [he, if_true, Option.some.injEq] at h; subst h; rw [← he]; simp [suffixesRec]
     · simp [he] at h
-
-def tyRank (rkT : AList Ty Nat) (t : Ty) : Nat := (AList.lookup t rkT).getD 0
-
-/-- the certificate checker -/
-def uncountedRanked (dsl : Dsl) (name : String) (rkT : AList Ty Nat) : Bool :=
-  dsl.prims.all (fun p => decide (symStr p = name) ||
-    (suffixes p.ty).all (fun s => s.1.all (fun a => decide (tyRank rkT a < tyRank rkT s.2))))
 
 /-- an upper bound of all ranks -/
 def maxRank (rkT : AList Ty Nat) : Nat := (rkT.map (·.2)).sum
